@@ -263,6 +263,17 @@ func (s *synth) value(t reflect.Type, name string, depth int) (reflect.Value, bo
 			v.SetUint(uint64(r.Intn(2)))
 		case ln == "algoid" && r.Chance(90):
 			v.SetUint(uint64(r.Intn(4)))
+		case len(RegConsts) > 0 && r.Chance(25):
+			// one of the library's own exported constants (message types, IEIs, causes ...)
+			max := uint64(1)<<uint(t.Bits()) - 1
+			if t.Bits() >= 64 {
+				max = ^uint64(0)
+			}
+			c := RegConsts[r.Intn(len(RegConsts))]
+			for tries := 0; c > max && tries < 4; tries++ {
+				c = RegConsts[r.Intn(len(RegConsts))]
+			}
+			v.SetUint(c & max)
 		default:
 			v.SetUint(r.boundaryUint(t.Bits()))
 		}
